@@ -129,6 +129,10 @@ def main(argv=None):
         s["id"] = i
         s.setdefault("tier", args.tier)
         s.setdefault("seed", args.seed)
+        if args.tier == "thorough":
+            # watchdog only (a fired watchdog is inconclusive, never a verdict): thorough tiers are sized for ~10-15 min on an
+            # idle 16-core machine and have been seen 4x slower on a loaded one
+            s["timeout"] = max(s.get("timeout", 900), 9000)
     workdir = os.path.join(common.VERIF_ROOT, ".cache", "run-%s-%d" % (args.prop, os.getpid()))
     os.makedirs(workdir, exist_ok=True)
     fails = []
@@ -216,7 +220,7 @@ def verdict(args, mod, res, known, t0, write_evidence):
                 "evaluations": int(res["evaluations"]),
                 "distinct_nontrivial": len(res["nontrivial"]),
                 "rule": mod.RULE,
-                "samples": res["samples"],
+                "samples": res["samples"] or [{"note": "no case was executed (see inconclusive_reasons)"}],
                 "observed_events": dict(sorted(res["counters"].items())),
                 "monitor_evaluations": dict(sorted(res["monitors"].items())),
                 "distinct_seen": {k: len(v) for k, v in sorted(res["sets"].items())},
